@@ -1,2 +1,111 @@
+(* C10/Props.v — property theorems only.  Each is closed by [exact] of a lemma from Lemmas.v and followed by
+   Print Assumptions (parsed by the check: must be "Closed under the global context").
+
+   Property C10: at every moment the switch-to-coil rules installed on a platform are exactly those of the
+   currently enabled flippers, autofire coils and kickbacks; enabling installs each rule once, disabling removes
+   all of them, however enable / disable / ball-search / timeout / software-flip requests interleave and repeat;
+   after ball_will_end / service_mode_entered no flipper or autofire rule remains and no flipper coil is left
+   energised.
+
+   [run_ops cfg (init cfg) ops] is the state of the model (Model.v) after ANY list of operations
+   Enable/Disable/SwFlip/SwRelease/BallSearch/Ev/SwOn/SwOff/Advance; [wf cfg] says that the (switch, coil) keys of
+   all rules of all configured devices are pairwise distinct (otherwise virtual.py's overwrite assertion is the
+   specified outcome).  The default event wiring ([en_events]/[dis_events] when a device does not override it) is
+   gen/Wiring.v, regenerated from mpf/config_spec.yaml on every run. *)
 From Common Require Import Prelude.
+From C10.gen Require Import Wiring.
 From C10 Require Import Model Lemmas.
+Open Scope Z_scope.
+
+(* The table is the disjoint union of the rules of the enabled devices: an entry is present iff it is an entry of
+   an enabled device, no key is present twice, the overwrite assertion never fired, and every enabled device
+   remembers exactly the rules it has to clear. *)
+Theorem rules_equal_enabled_devices : forall cfg ops, wf cfg ->
+  let s := run_ops cfg (init cfg) ops in
+  (forall kv, In kv (tbl s) <->
+              exists i, (i < length cfg)%nat /\ enabled (dev s i) = true /\ In kv (entries_of (cf cfg i))) /\
+  NoDup (map fst (tbl s)) /\ err s = false /\
+  (forall i, enabled (dev s i) = true -> arules (dev s i) = rules_of (cf cfg i)).
+Proof. exact rules_equal_enabled_devices_l. Qed.
+Print Assumptions rules_equal_enabled_devices.
+
+(* enable() twice = enable() once: same state, in particular no further platform call in the log *)
+Theorem enable_idempotent : forall cfg s i, wf cfg -> (i < length (devs s))%nat ->
+  do_act cfg (do_act cfg s (AEnable i)) (AEnable i) = do_act cfg s (AEnable i).
+Proof. exact enable_idempotent_l. Qed.
+Print Assumptions enable_idempotent.
+
+(* after any history, Disable i leaves device i off, none of its keys in the platform, no pending timeout
+   re-enable and no software EOS manager *)
+Theorem disable_removes_all : forall cfg ops i, wf cfg -> (i < length cfg)%nat ->
+  let s := run_ops cfg (init cfg) (ops ++ [Disable i]) in
+  enabled (dev s i) = false /\
+  (forall k, In k (keys_of (cf cfg i)) -> has_key k (tbl s) = false) /\
+  has_tmr (TReenable i) (timers s) = false /\
+  mgr (dev s i) = None.
+Proof. exact disable_removes_all_l. Qed.
+Print Assumptions disable_removes_all.
+
+(* For a device with the default wiring of config_spec.yaml: after ball_will_end or service_mode_entered, and after
+   any further operations that do not enable it again (no Enable i, no event of its enable list - timers, switch
+   hits, ball search, software flips, other devices' traffic and further disables are all allowed), the device is
+   off, none of its rules is in the platform, no timeout re-enable is pending (timeout_reenable_never_after_disable)
+   and no software EOS manager is left. *)
+Theorem no_rules_outside_ball : forall cfg ops1 e ops2 i,
+  wf cfg -> (i < length cfg)%nat ->
+  d_en_ev (cf cfg i) = None -> d_dis_ev (cf cfg i) = None ->
+  e = ev_ball_will_end \/ e = ev_service_mode_entered ->
+  Forall (passive cfg i) ops2 ->
+  let s := run_ops cfg (init cfg) (ops1 ++ Ev e :: ops2) in
+  enabled (dev s i) = false /\
+  (forall k, In k (keys_of (cf cfg i)) -> has_key k (tbl s) = false) /\
+  has_tmr (TReenable i) (timers s) = false /\
+  mgr (dev s i) = None.
+Proof. exact no_rules_outside_ball_l. Qed.
+Print Assumptions no_rules_outside_ball.
+
+(* "no flipper coil is left energised": FULL statement wanted:
+     forall cfg ops1 e ops2 i (as above, i a flipper), in the final state cget (main coil) <> 1 /\ cget (hold coil) <> 1.
+   Proved here (_partial): the disable step itself.  If the flipper's coils are energised only by what the model
+   can energise them with (a software flip, or a software EOS repulse while the button is active) then after
+   Flipper.disable neither coil is energised.  Missing: that this hypothesis is an invariant of all histories
+   (needs the coils of different devices to be distinct); it is validated by the correspondence runs and checked
+   directly on the implementation by the oracle (sig flipper-coil-energised-while-disabled) on every run. *)
+Theorem disable_releases_coils_partial : forall cfg s i,
+  is_flip (cf cfg i) = true -> enabled (dev s i) = true ->
+  (cget (d_coil (cf cfg i)) (coils s) = 1 ->
+     flipped (dev s i) = true \/ exists l, mgr (dev s i) = Some (true, l)) ->
+  (forall h, d_hold (cf cfg i) = Some h -> cget h (coils s) = 1 -> flipped (dev s i) = true) ->
+  let s' := dev_disable cfg s i in
+  cget (d_coil (cf cfg i)) (coils s') <> 1 /\
+  (forall h, d_hold (cf cfg i) = Some h -> cget h (coils s') <> 1).
+Proof. exact disable_releases_coils_l. Qed.
+Print Assumptions disable_releases_coils_partial.
+
+(* ------------------------------------------------------------------------------------------ *)
+(* satisfiability of the hypotheses on a non-trivial machine: a single-wound flipper with EOS and software
+   repulse, a dual-wound flipper on the same button, an autofire coil with timeout protection, a kickback *)
+Example ex_wf : wf ex_cfg.
+Proof. exact ex_wf_l. Qed.
+Print Assumptions ex_wf.
+
+(* ... on which a history with a timeout trip, a software repulse and a ball end is non-trivial: rules were
+   installed, the ball end removes those of the default-wired devices, and the hypotheses of
+   no_rules_outside_ball hold for device 0 with a non-empty passive continuation *)
+Example ex_history :
+  length (tbl (run_ops ex_cfg (init ex_cfg) ex_ops1)) = 6%nat /\
+  cget 1 (coils (run_ops ex_cfg (init ex_cfg) ex_ops1)) = 1 /\
+  d_en_ev (cf ex_cfg 0) = None /\ d_dis_ev (cf ex_cfg 0) = None /\
+  Forall (passive ex_cfg 0) ex_ops2 /\ ex_ops2 <> [] /\
+  tbl (run_ops ex_cfg (init ex_cfg) (ex_ops1 ++ Ev ev_ball_will_end :: ex_ops2)) = [] /\
+  cget 1 (coils (run_ops ex_cfg (init ex_cfg) (ex_ops1 ++ Ev ev_ball_will_end :: ex_ops2))) = 0.
+Proof. exact ex_history_l. Qed.
+Print Assumptions ex_history.
+
+(* the hypotheses of disable_releases_coils_partial hold in a state where the coil IS energised by a repulse *)
+Example ex_coil_held :
+  let s := run_ops ex_cfg (init ex_cfg) ex_ops1 in
+  is_flip (cf ex_cfg 0) = true /\ enabled (dev s 0%nat) = true /\ cget 1 (coils s) = 1 /\
+  flipped (dev s 0%nat) = false /\ mgr (dev s 0%nat) = Some (true, false).
+Proof. exact ex_coil_held_l. Qed.
+Print Assumptions ex_coil_held.
